@@ -310,6 +310,25 @@ def Tr.logDet (fn : Fn K) (t : Tr K) (x : K) : K :=
   | .exp => fn.log (fn.exp x)
   | .shift _ c => -fn.log c
 
+/-- `transform.jacobian(x)` (a diagonal operator): d transform / dx; `logDet` is its logarithm -/
+def Tr.grad (fn : Fn K) (t : Tr K) (x : K) : K :=
+  match t with
+  | .phi => 1 / fn.normPdf (fn.ndtri x)
+  | .log => 1 / x
+  | .log10 => 1 / x / fn.log (2 + 2 + 2 + 2 + 2)
+  | .exp => fn.exp x
+  | .shift _ c => 1 / c
+
+/-- `TransformedMessage.variance` (first order): `for t in transforms: mean = t.inv_transform(mean);
+variance = t.jacobian(mean).invquad(variance)` - each transform's Jacobian is taken at the mean *in the
+space that transform maps from*, in the order of the stack -/
+def varianceChain (fn : Fn K) : List (Tr K) → K × K → K × K
+  | [], mv => mv
+  | t :: rest, (m, v) =>
+    let m' := t.inv fn m
+    let g := t.grad fn m'
+    varianceChain fn rest (m', v * (1 / g) * (1 / g))
+
 /-- `TransformedMessage._transform`: `for t in reversed(transforms): x = t.transform(x)` -/
 def transformChain (fn : Fn K) (trs : List (Tr K)) (x : K) : K :=
   trs.foldr (fun t x => t.apply fn x) x
@@ -388,6 +407,9 @@ def M.valueFor (fn : Fn K) (m : M K) (u : K) : K :=
 
 def M.mean (fn : Fn K) (m : M K) : K :=
   inverseChain fn m.trs m.base.mean
+
+def M.variance (fn : Fn K) (m : M K) : K :=
+  (varianceChain fn m.trs (m.base.mean, m.base.variance fn)).2
 
 /-- `message.project(samples, log_weight_list)` called on an instance: a transformed message
 projects the samples *mapped to the space of its base message* (repaired behaviour, see
